@@ -209,3 +209,23 @@ fn kb_schedule_1v2a() { check_schedule(1, 2); }
 #[kani::proof]
 #[kani::unwind(6)]
 fn kb_schedule_2v2a() { check_schedule(2, 2); }
+
+/// BOUNDED (days below 36525 = the years 1970..2069): days_to_ymd returns a valid calendar date whose day number, computed by an
+/// independent civil-date formula (days_from_civil, Hinnant), is the input.
+#[kani::proof]
+#[kani::unwind(102)]
+fn kb_days_to_ymd() {
+    let n: u64 = kani::any();
+    kani::assume(n < 36525);
+    let (y, m, d) = days_to_ymd(n);
+    assert!(y >= 1970 && y <= 2069 && m >= 1 && m <= 12 && d >= 1 && d <= 31);
+    // days_from_civil
+    let yy: i64 = if m <= 2 { y as i64 - 1 } else { y as i64 };
+    let era: i64 = yy / 400;
+    let yoe: i64 = yy - era * 400;
+    let mp: i64 = (m as i64 + 9) % 12;
+    let doy: i64 = (153 * mp + 2) / 5 + d as i64 - 1;
+    let doe: i64 = yoe * 365 + yoe / 4 - yoe / 100 + doy;
+    let days: i64 = era * 146097 + doe - 719468;
+    assert!(days == n as i64);
+}
